@@ -328,8 +328,11 @@ class FsmWorld(pipe.PipeWorld):
             return False, f'busy workers: {sorted(G.handed)[:3]}'
         if p == 2:
             return True, 'crew idle'
-        if G.inflight or G.queued:
-            return False, f'executing: {sorted(k for k, v in G.inflight.items() if v)[:3]}'
+        # executing = turned into a task message (queued in the farm or with a worker); a unit the scheduler has released
+        # but the farm could not convert yet (database error while drawing its run id) is executing for nobody
+        executing = sorted(k for k, v in G.inflight.items() if v and k not in G.converting)
+        if executing or G.queued:
+            return False, f'executing: {executing[:3]}'
         if p == 1:
             return True, 'nothing executing'
         if not G.idle():
